@@ -246,7 +246,7 @@ def run_obligation(ob, findings, seed=0):
         if ob.expect_reach and res.stats.checks == 0 and not res.inconclusive:
             out["inconclusive"].append("vacuous: no path reached a property evaluation")
         for v in res.violations:
-            rep = _replay(ob, v.values)
+            rep = _replay(ob, v.values, v.label)
             entry = {"label": v.label, "values": _jsonable(v.values), "note": v.note, "reproduced": rep["reproduced"], "replay_detail": rep["detail"]}
             if rep["reproduced"]:
                 out["violations"].append(entry)
@@ -256,7 +256,7 @@ def run_obligation(ob, findings, seed=0):
                     f"{json.dumps(_jsonable(v.values))[:400]} :: {rep['detail'][:300]}"
                 )
         for kid, v in res.known_hits.items():
-            rep = _replay(ob, v.values)
+            rep = _replay(ob, v.values, v.label)
             entry = {"id": kid, "label": v.label, "values": _jsonable(v.values), "reproduced": rep["reproduced"]}
             (out["known"] if rep["reproduced"] else out["known_stale"]).append(entry)
     except Exception as e:  # noqa: BLE001
@@ -265,13 +265,18 @@ def run_obligation(ob, findings, seed=0):
     return out
 
 
-def _replay(ob, values):
+def _replay(ob, values, label=None):
+    """Run the harness body on the concrete values, unshimmed.  The violation
+    reproduces only if the SAME labelled property fails concretely."""
     try:
         vs = core.replay(lambda e: ob.bound(e), values)
     except Exception as e:  # noqa: BLE001
         return {"reproduced": False, "detail": f"replay raised {type(e).__name__}: {e}"}
+    same = [v for v in vs if label is None or v.label == label]
+    if same:
+        return {"reproduced": True, "detail": "; ".join(f"{v.label}: {v.note}" for v in same)[:500]}
     if vs:
-        return {"reproduced": True, "detail": "; ".join(f"{v.label}: {v.note}" for v in vs)[:500]}
+        return {"reproduced": False, "detail": "other properties failed concretely, not this one: " + ", ".join(sorted({v.label for v in vs}))}
     return {"reproduced": False, "detail": "property held under the concrete values"}
 
 
